@@ -361,7 +361,7 @@ func (cr *ChunkReader) parseChunkHeaderBytes(header []byte, l *int) (int64, stri
 		return cr.handleRdrErr(err, header)
 	}
 	chunkSize, err := strconv.ParseInt(chunkSizeStr, 16, 64)
-	if err != nil {
+	if err != nil || chunkSize < 0 {
 		return 0, "", 0, errInvalidChunkFormat
 	}
 
